@@ -154,6 +154,8 @@ pub const CATALOGUE: &[Entry] = &[
     e("duplicate_modifier", "@«&&»zz9{}", E::COMPONENT_MODIFIERS, Err_, Parse, false),
     e("duplicate_modifier_opt", "#«??»zz9{}", E::COMPONENT_MODIFIERS, Err_, Parse, false),
     e("recipe_modifier_on_cookware", "#«@»zz9{}", E::COMPONENT_MODIFIERS, Err_, Parse, false),
+    e("recipe_modifier_on_cookware_not_first", "#?«@»zz9{}", E::COMPONENT_MODIFIERS, Err_, Parse, false),
+    e("recipe_modifier_on_cookware_last_of_three", "#-?«@»zz9{1}", E::COMPONENT_MODIFIERS, Err_, Parse, false),
     e("modifiers_on_timer", "~«&»zz9{1%min}", E::COMPONENT_MODIFIERS, Err_, Parse, false),
     e("intermediate_on_cookware", "#&«(1)»zz9{}", E::INTERMEDIATE_PREPARATIONS, Err_, Parse, false),
     e("empty_alias", "@zz9«|»{}", E::COMPONENT_ALIAS, Err_, Parse, false),
@@ -322,9 +324,14 @@ pub fn inject_delta(host: &str, entry: &Entry, pos: usize, inline: bool, delta: 
 }
 
 pub fn check_injection(ctx: &mut Ctx, ps: &mut Parsers, entry: &Entry, text: &str, lo: usize, hi: usize, ext: u32, placement: &str) {
-    let case = Case::new("injected", text, ext, "bundled").with(json!({"entry": entry.name, "range": [lo, hi], "placement": placement}));
+    check_injection_with(ctx, ps, entry, text, lo, hi, ext, placement, "bundled")
+}
+
+#[allow(clippy::too_many_arguments)]
+pub fn check_injection_with(ctx: &mut Ctx, ps: &mut Parsers, entry: &Entry, text: &str, lo: usize, hi: usize, ext: u32, placement: &str, conv: &str) {
+    let case = Case::new("injected", text, ext, conv).with(json!({"entry": entry.name, "range": [lo, hi], "placement": placement}));
     ctx.begin(&case);
-    let parser = ps.parser(ext, "bundled").clone();
+    let parser = ps.parser(ext, conv).clone();
     let r = match crate::core::guarded(|| parser.parse(text)) {
         Ok(r) => r,
         Err(p) => {
@@ -434,20 +441,20 @@ pub fn run(ctx: &mut Ctx) {
         let level = (i % 3 + 1) as u32;
         match i % 3 {
             0 => {
-                let spec = g::gen_spec(&mut r, &GenOpts { text_mode_components: false, ..GenOpts::extended() });
+                let spec = g::gen_spec(&mut r, &GenOpts { text_mode_components: false, refused_std_values: false, ..GenOpts::extended() });
                 let sp = g::spell(&spec, seed, feat::ALL, level);
                 if sp.expected.is_some() {
                     check_clean(ctx, &mut ps, &sp.text, E::all().bits(), "bundled", "extended/all");
                 }
             }
             1 => {
-                let spec = g::gen_spec(&mut r, &GenOpts::canonical());
+                let spec = g::gen_spec(&mut r, &GenOpts { refused_std_values: false, ..GenOpts::canonical() });
                 let sp = g::spell(&spec, seed, feat::ALL, level);
                 check_clean(ctx, &mut ps, &sp.text, 0, "empty", "canonical/none");
             }
             _ => {
                 // core recipes are well formed under every subset
-                let spec = g::gen_spec(&mut r, &GenOpts::core());
+                let spec = g::gen_spec(&mut r, &GenOpts { refused_std_values: false, ..GenOpts::core() });
                 let sp = g::spell(&spec, seed, feat::ALL, level);
                 check_clean(ctx, &mut ps, &sp.text, E::COMPAT.bits(), "bundled", "core/compat");
                 let e = subsets[ctx.rng.below(subsets.len())].bits();
@@ -499,7 +506,7 @@ pub fn run(ctx: &mut Ctx) {
     for h in 0..hosts {
         let seed = ctx.rng.next();
         let mut r = Rng::new(seed);
-        let mut spec = g::gen_spec(&mut r, &GenOpts::core());
+        let mut spec = g::gen_spec(&mut r, &GenOpts { refused_std_values: false, ..GenOpts::core() });
         spec.front = None;
         let host = g::spell(&spec, seed, feat::ALL & !feat::CRLF & !feat::NO_FINAL_NEWLINE, 1).text;
         let (blocks, inline) = placements(&host);
@@ -526,7 +533,13 @@ pub fn run(ctx: &mut Ctx) {
                 }
                 let (pos, is_inline) = if !entry.block && !inline.is_empty() && ctx.rng.coin() { (inline[ctx.rng.below(inline.len())], true) } else { (blocks[ctx.rng.below(blocks.len())], false) };
                 let (text, lo, hi) = inject(&host, entry, pos, is_inline);
-                check_injection(ctx, &mut ps, entry, &text, lo, hi, ext, if is_inline { "inline" } else if pos == 0 { "first_block" } else if pos == host.len() { "last_block" } else { "between_blocks" });
+                let placement = if is_inline { "inline" } else if pos == 0 { "first_block" } else if pos == host.len() { "last_block" } else { "between_blocks" };
+                check_injection(ctx, &mut ps, entry, &text, lo, hi, ext, placement);
+                // a converter without units knows no time unit either: the timer-unit entries hold there as well
+                if matches!(entry.name, "timer_unit_not_time" | "timer_unit_unknown" | "timer_value_text") {
+                    check_injection_with(ctx, &mut ps, entry, &text, lo, hi, ext, placement, "empty");
+                    ctx.count("timer_entries_under_the_empty_converter");
+                }
                 if entry.name.ends_with("one_past_last") {
                     // the companion: the LAST existing step / section is a valid target, the recipe stays clean
                     let (st, se) = counts_before(&host, pos, is_inline);
@@ -576,7 +589,7 @@ pub fn replay(ctx: &mut Ctx, case: &Case) {
             if let Some(entry) = CATALOGUE.iter().find(|e| e.name == name) {
                 let lo = case.params["range"][0].as_u64().unwrap_or(0) as usize;
                 let hi = case.params["range"][1].as_u64().unwrap_or(0) as usize;
-                check_injection(ctx, &mut ps, entry, &case.input, lo, hi, case.ext, case.params["placement"].as_str().unwrap_or("?"));
+                check_injection_with(ctx, &mut ps, entry, &case.input, lo, hi, case.ext, case.params["placement"].as_str().unwrap_or("?"), &case.conv);
             }
         }
         _ => {
